@@ -460,7 +460,7 @@ def run_impl(inp):
     if impl in (3, 4, 12):
         import c04_async
         return c04_async.run(inp)
-    if impl in (5, 6, 7, 9):
+    if impl in (5, 6, 7, 9, 13):
         import c04_real
         return c04_real.run(inp)
     if impl in (10, 11):
@@ -486,6 +486,21 @@ def _client_run(inp):
 # ---------------------------------------------------------------------------------------------------------------
 # the property, stated on the implementation
 def oracle(inp):
+    if inp[7] == 13:
+        import realio
+        import c04_real
+        specs_a, specs_b, specs_c, steps, ver = inp[8]
+        cat = lambda specs: b"".join(realio.chunk_bytes(c if isinstance(c, bytes) else tuple(c)) for c in specs)  # noqa: E731
+        A, B, C = cat(specs_a), cat(specs_b), cat(specs_c)
+        out = c04_real.run(inp, force=True)
+        if out[0] in (8, 9):
+            return "async TLS: send does not terminate"
+        if out[0] == 0 and not out[2]:
+            return ("async TLS: send_all(C) returned normally but the peer cannot decrypt the stream any more (records of a "
+                    "cancelled sender were thrown away: sequence hole): bytes dropped although the send returned")
+        if out[0] == 0 and out[1] not in (realio.digest(A + C), realio.digest(A + B + C)):
+            return f"async TLS: send_all(C) returned but the peer decrypted {out[1]} (length, checksum), neither A+C nor A+B+C"
+        return None
     if inp[7] == 12:
         import realio
         out = run_impl(inp)
@@ -565,6 +580,10 @@ def oracle(inp):
         f = iosim.event_failure(out[2], [1 if a[0] in (1, 2) else 0 for a in sscript if a[0] in (1, 2, 3, 4)], "send")
         if f:
             return f
+    if impl in (0, 1, 2) and outcome == 1 and not any(a[0] in (1, 2, 3, 4) for a in sscript):
+        # a zero / exhausted budget means "do not wait", not "cannot complete"
+        return (f"TimeoutError (timeout {iosim.sx_tmo(T)}) although no send()/sendmsg() call ever had to wait (no would-block "
+                f"answer at all); wire={wire!r} of {want!r}")
     if impl in (0, 1, 2) and all(a[2] == 0 for a in sscript):
         # "within its time budget": before each wait at most what is left of T is requested (C11's statement, checked
         # here too so that a send path that ignores the remaining timeout yields a failing input)
@@ -765,6 +784,16 @@ def cases(tier, rng, escalate):
         specs = [(rng.randrange(1, 2 ** 30), 100000), b"", (rng.randrange(1, 2 ** 30), 100000), (rng.randrange(1, 2 ** 30), 100000),
                  bytes([1, 2, 3])]
         yield real_case(7, 1024, specs, 9, 0, 4096, 0, ver, None)
+    # async TLS on a real SSLObject, a sender cancelled while it is queued on the TLS transport's send lock (path 12)
+    for ver in (12, 13):
+        for steps in (0, 1, 2, 5):
+            for _ in range(3 if thorough else 1):
+                mk = lambda: [bytes(rng.randrange(256) for _ in range(rng.choice([0, 1, 30, 1000]))) for _ in range(rng.randint(1, 3))]  # noqa: E731
+                a, b, c = mk(), mk(), mk()
+                if not any(a):
+                    a.append(b"A")        # A must reach the wrapped transport (it is the sender that holds the lock)
+                yield dict(input=[12, 0, [], [], [], [], [], 13, [a, b, c, steps, ver]], tags=["real", "async-tls-cancel", "path12",
+                           "impl13", f"steps{steps}"], nontrivial=True)
     # small real cases: every list of <= 2 chunks over lengths {0,1,3}, every real transport
     for lengths in [l for l in lists if len(l) <= 2]:
         for impl, path in ((5, 5), (6, 5), (7, 6), (9, 7)):
